@@ -19,7 +19,11 @@ ASSUMPTIONS = ['"supported dialect names" are the keys of the renderer\'s own ta
 BUDGET = {'quick': (16, 240), 'thorough': (16, 1800)}
 NAMES = ['mysql', 'postgresql', 'postgres', 'sqlite', 'mssql', 'oracle', 'Snowflake']
 
-EXTRA = [
+# casts to every type name the renderer knows (and some it does not), bare, with a length, with precision and scale
+CAST_TYPES = ['int', 'integer', 'bigint', 'smallint', 'float', 'real', 'double', 'decimal', 'numeric', 'char', 'varchar', 'nvarchar', 'text', 'date', 'datetime',
+              'timestamp', 'time', 'boolean', 'bool', 'json', 'blob', 'binary', 'signed', 'unsigned', 'int8', 'float8', 'foo']
+EXTRA = [f'select cast(a as {ty}{arg}) as c, {"b::" + ty if not arg else "b"} from t' for ty in CAST_TYPES for arg in ('', '(10)', '(10,2)', '(10, 2)')] + [
+    'select cast(a as float(10,2)), cast(b as float(10,2)), cast(cast(c as decimal(12,4)) as varchar(30)) from t',
     'select cast(a as foo) from t', 'select count(a, b) from t', 'select a from t where (a, b) in ((1, 2), (3, 4))',
     'select a between 1 and (1, 2) from t', 'select * from t limit 5 offset 2', 'select cast(a as json) from t',
     'create table t (a serial, b int(11), c varchar(20), d date(3), e bigint(20) default x)', 'create table t (id serial)',
